@@ -8,6 +8,7 @@ import (
 	"go/printer"
 	"go/token"
 	"os"
+	"os/exec"
 	"path/filepath"
 	"sort"
 	"strings"
@@ -37,6 +38,18 @@ var bodyFiles = []srcFile{
 	{"filesys", "machine/filesys/dir.go"},
 	{"test_gen", "cmd/test_gen/main.go"},
 	{"goosecmd", "cmd/goose/main.go"},
+}
+
+// moduleDir asks the go command (offline) where a required module is cached
+func moduleDir(repo, mod string) string {
+	cmd := exec.Command("go", "list", "-m", "-f", "{{.Dir}}", mod)
+	cmd.Dir = repo
+	cmd.Env = append(os.Environ(), "GOFLAGS=-mod=mod", "GOPROXY=off", "GOSUMDB=off", "GOTOOLCHAIN=local")
+	out, err := cmd.Output()
+	if err != nil {
+		return ""
+	}
+	return strings.TrimSpace(string(out))
 }
 
 func recvName(fd *ast.FuncDecl) string {
@@ -84,7 +97,14 @@ func genBodies(repo string) string {
 	}
 	var imps []imp
 	missing := []string{}
-	for _, sf := range bodyFiles {
+	files := append([]srcFile{}, bodyFiles...)
+	// the delegate of machine.WaitTimeout lives in the pinned module github.com/goose-lang/primitive
+	if dir := moduleDir(repo, "github.com/goose-lang/primitive"); dir != "" {
+		if rel, err := filepath.Rel(repo, filepath.Join(dir, "prims.go")); err == nil {
+			files = append(files, srcFile{"primitive", rel})
+		}
+	}
+	for _, sf := range files {
 		if _, err := os.Stat(filepath.Join(repo, sf.path)); err != nil {
 			missing = append(missing, sf.path)
 			continue
